@@ -121,6 +121,14 @@ def float_class(t, got, exp):
     return form + ":wrong-value"
 
 
+def _same_value(text, v):
+    """text is a (possibly non-canonical) decimal text of v"""
+    try:
+        return text.strip() == text and int(text) == v
+    except ValueError:
+        return False
+
+
 def check_int_rows(col, case, prefix, vals, got_rows):
     """got_rows: list of str; vals: list of int"""
     if not col.check(len(got_rows) == len(vals), prefix + ":row-count", case, "got %d rows for %d values" % (len(got_rows), len(vals))):
@@ -706,7 +714,7 @@ def ev_joinlists_sel(col, case, tmp):
                 per_row.append(parts)
             if all(len(p) == len(r) for p, r in zip(per_row, sel_rows)):
                 bad = [(v, t) for p, r in zip(per_row, sel_rows) for t, v in zip(p, r) if t != str(v)]
-                if bad:
+                if bad and all(_same_value(t, v) for v, t in bad):
                     sub = "element:" + fmt_class(bad[0][0], bad[0][1])
         col.fail(tag + ":" + sub, case, "got %r expected %r" % (got[:6], exp[:6]))
     # the selection and the array it was taken from keep their values; formatting again gives the same text
@@ -745,10 +753,6 @@ def _int_view(vals, view):
         rows = [[(v if c == j else c - i) for c in range(j + 1 + i % 3)] for i, v in enumerate(vals)]
         base = _ragged(rows)
         return base[:, j], list(vals), base, rows
-    if kind == "ragged-row":               # one row of a selection of a RaggedArray
-        rows, steps, i = view[1], view[2], view[3]
-        base = _ragged(rows)
-        return sel_lib(base, steps)[i], sel_py(rows, steps)[i], base, rows
     raise ValueError(view)
 
 
@@ -911,7 +915,8 @@ def ev_table_sel(col, case, tmp):
     import bionumpy as bnp
     fmt, rows, steps, hist = case["fmt"], case["rows"], case["sel"], case["hist"]
     col.case(case, contract="write:selected-rows:%s:%s" % (fmt, hist))
-    tag = "%s_write:selected-rows:%s" % (fmt, hist)
+    # signature class: the numbers are formatted from (selections of) arrays / the parsed text of the fields is moved
+    tag = "%s_write:selected-rows:%s" % (fmt, "parsed-text-moved" if hist in ("read", "read-touch") else "columns-formatted")
     sel_rows = sel_py(rows, steps)
     bt = _tbl_buffer_type(fmt)
     kw = {"buffer_type": bt} if bt is not None else {}
@@ -987,8 +992,13 @@ def ev_table_sel(col, case, tmp):
                 parts = g.split(",")
                 if parts and parts[-1] == "":        # a trailing comma is permitted by the BED12 format
                     parts = parts[:-1]
-                if parts != e.split(","):
-                    col.fail(tag + ":int-list:wrong-join", case, "token %d: list %s written as %r" % (k, e, g))
+                eparts = e.split(",")
+                if parts != eparts:
+                    sub = "wrong-join"
+                    bad = [(int(b), a) for a, b in zip(parts, eparts) if a != b]
+                    if len(parts) == len(eparts) and all(_same_value(a, b) for b, a in bad):
+                        sub = "element:" + fmt_class(bad[0][0], bad[0][1])   # grouping right, an element not canonical
+                    col.fail(tag + ":int-list:" + sub, case, "token %d: list %s written as %r" % (k, e, g))
             elif k in float_pos:
                 try:
                     ok = float(g) == float(r[3])
@@ -1105,14 +1115,15 @@ def row_selections(n, rng, level):
     if n >= 3:
         perms.append([1, 0] + ident[2:])
         perms.append(ident[:-2] + [n - 1, n - 2])
-    slices = [(a, b, st) for st in (1, -1, 2, -2, 3, -3) for a in [None] + list(range(n)) for b in [None] + list(range(n + 1))]
-    masks = [[(m >> i) & 1 for i in range(n)] for m in range(1, 2 ** n)]
     if level == 0:
         out += [[["idx", q]] for q in perms[:4]]
         out += [[["slice", None, None, -1]], [["slice", 1, None, 1]], [["slice", n // 2, None, 1]], [["slice", None, None, 2]], [["slice", 1, n - 1, 1]]]
         out += [[["mask", [i % 2 for i in range(n)]]], [["mask", [int(i not in (0, n - 2)) for i in range(n)]]], [["mask", [int(i == n - 1) for i in range(n)]]]]
         out += [[["idx", ident[::-1]], ["slice", 1, None, 1]], [["mask", [int(i != 0) for i in range(n)]], ["slice", None, None, -1]]]
         return _dedupe(out, n)
+    assert n <= 8, "exhaustive masks / slices are for small arrays"
+    slices = [(a, b, st) for st in (1, -1, 2, -2, 3, -3) for a in [None] + list(range(n)) for b in [None] + list(range(n + 1))]
+    masks = [[(m >> i) & 1 for i in range(n)] for m in range(1, 2 ** n)]
     if level >= 2 and n <= 4:
         out += [[["idx", q]] for q in sub_batches(ident)]
     elif level >= 2 and n <= 6:
@@ -1128,10 +1139,7 @@ def row_selections(n, rng, level):
     out += [[["idx", [i, j]]] for i in ident for j in ident if i == j or level >= 2]           # repeated rows
     out += [[["idx", [i, j, i]]] for i in ident[:3] for j in ident[-2:]]
     out += [[["slice", a, b, st]] for a, b, st in slices if level >= 2 or abs(st) <= 2]
-    if n <= 6 or level >= 2:
-        out += [[["mask", m]] for m in (masks if n <= 8 else masks[:: max(1, len(masks) // 256)])]
-    else:
-        out += [[["mask", m]] for m in masks[:: max(1, len(masks) // 40)]]
+    out += [[["mask", m]] for m in (masks if (n <= 6 or level >= 2) else masks[:: max(1, len(masks) // 40)])]
     # two selections chained
     firsts = [["idx", ident[::-1]], ["idx", ident[1:] + ident[:1]], ["slice", 1, None, 1], ["slice", None, None, -1], ["slice", None, None, 2],
               ["mask", [int(i != 1 % n) for i in range(n)]]]
@@ -1382,7 +1390,12 @@ def run(tier="quick", seed=0):
                     "reduced set, whole-set batches in several orders, every permutation of every sub-batch of small base batches "
                     "(formatting, parsing with sign/'+'/leading zeros, through strops and through BED/BED6/BED12/bedGraph/matrix "
                     "files); float texts: 1..17 significant digits x digit patterns x sign x every point position x exponent grid; "
-                    "doubles for the round trip; seeded random values above the bounds. distinct = distinct (operation, input); "
+                    "doubles for the round trip; integers within 130 of 10^15..10^18 and within 3 of 2^54..2^63 through every integer "
+                    "formatter; operation histories: each formatter / parser applied to a non-contiguous selection (every ordered "
+                    "sub-selection / permutation, mask, slice with step +-1..3, repeated rows, column slices, two selections chained) of "
+                    "ragged integer lists, integer arrays, matrices and BED/BED6/BED12/bedGraph tables (built fresh, from selected columns, "
+                    "or read with columns touched / re-assigned before / after the selection); "
+                    "seeded random values above the bounds. distinct = distinct (operation, input); "
                     "non-trivial = every case (each converts at least one number)")
     col.bounds = {"integers": "0, +-(10^d+k) d=0..18 k=-2..2, int64 min/max +-0..2, +-(2^b+k) b in {7,8,15,16,31,32,53,62}, 5*10^d, 1..1, -9..9",
                   "batch_sizes": "1, 2 (all ordered pairs of %d values), 4%s (all ordered sub-batches), whole set (~%d)" % (
@@ -1390,6 +1403,12 @@ def run(tier="quick", seed=0):
                   "int_text_variants": "canonical, '+', 1-2 leading zeros, zero-padded to 19/20%s, -0" % ("/25/40" if thorough else ""),
                   "float_sig_digits": "1..17", "float_exponents": "-300..300 (%s)" % ("all for 12 digit strings, grid of 28 otherwise" if thorough else "grid of 28"),
                   "float_tolerance_ulp": ULP_TOL, "random_batches": 5000 if thorough else 300, "list_rows": "1..3 rows x 0..3 elements",
+                  "near_power_integers": "+-(10^d +- k) d=15..18 k=%s; +-(2^b + k) b=54..63 |k|<=%d" % ("1..130" if thorough else "1..9,15..17,31..33,63..66,127..129", 3 if thorough else 1),
+                  "selections": "bases of 3..%d rows x 0..8 elements: %s; sorted / masked / reversed / tail / chained selections of random batches of %s rows; "
+                                "tables of 4..6 rows x 6 column histories%s, 40%s random rows" % (
+                                    8 if thorough else 6, "all ordered sub-selections (<=4 rows) / all permutations (<=6 rows), all masks, all slices step +-1..3, repeats, 42 chains, column slices" if thorough
+                                    else "all masks, all slices step +-1,+-2, structured + 12 seeded permutations, repeats, 42 chains, column slices",
+                                    "8..1000" if thorough else "8..200", " (exhaustive selections for 4 rows)" if thorough else " (a dozen selections each; BED12 lists: all masks/slices for 4 rows)", "..300" if thorough else ""),
                   "seed": seed}
     _single.clear()
     rng = col.rng
@@ -1666,12 +1685,6 @@ def run(tier="quick", seed=0):
         for v in (0, 5, -5, 10 ** 18, -(10 ** 18), 10 ** 17 - 1, I64MAX):
             for n in (1, 2, 5):
                 go({"k": "fmt_view", "vals": [v], "view": ["broadcast", n]})
-        for rows in list_bases(thorough)[:4]:
-            for steps in row_selections(len(rows), rng, 0):
-                picked = sel_py(rows, steps)
-                for i, r in enumerate(picked):
-                    if r:
-                        go({"k": "fmt_view", "vals": [], "view": ["ragged-row", rows, steps, i]})
         for base in int_base_batches(False):
             texts = [str(v) for v in base]
             texts[1] = ("+" + texts[1]) if base[1] >= 0 else texts[1][0] + "00" + texts[1][1:]
@@ -1696,10 +1709,14 @@ def run(tier="quick", seed=0):
             for variant, n in ((0, 6), (1, 5), (0, 4)):
                 rows = table_rows(fmt, n, variant)
                 for hist in HISTS:
-                    full = thorough and (fmt == "bed12" or hist in ("fresh", "read-set"))
-                    level = (2 if full else 1) if (variant == 0 and n == 4) or (thorough and fmt == "bed12") else 0
-                    if not thorough and fmt != "bed12" and hist in ("read", "read-touch") and n != 6:
-                        continue
+                    # the histories in which numbers are formatted from a selection get the larger selection sets
+                    formats = hist in ("fresh", "fresh-from-selected-columns", "read-set")
+                    if thorough:
+                        level = (2 if (fmt == "bed12" or formats) else 1) if n == 4 or (fmt == "bed12" and formats) else 0
+                    else:
+                        level = 1 if (fmt == "bed12" and formats and n == 4) else 0
+                        if fmt != "bed12" and hist in ("read", "read-touch") and n != 6:
+                            continue
                     for steps in row_selections(n, rng, level):
                         go({"k": "table_sel", "fmt": fmt, "rows": rows, "sel": steps, "hist": hist})
         for nrows in ((40,) if not thorough else (40, 41, 300)):
